@@ -17,7 +17,7 @@ func LockKey(v ssa.Value) string {
 		if st == nil {
 			return ""
 		}
-		return NamedOf(x.X.Type()) + "." + st.Field(x.Field).Name()
+		return NamedOf(x.X.Type()) + "." + FieldName(st, x.Field)
 	case *ssa.Alloc:
 		return "cell:" + x.Comment
 	case *ssa.Global:
